@@ -10,6 +10,7 @@ type effect struct {
 	objs   []*Obj // objects the operation depends on
 	write  bool   // objects' hashes advance to wlast
 	wlast  uint64
+	commT  uint64 // != 0: commuting update; term added to the object's accumulator
 	objbuf [4]*Obj
 }
 
@@ -29,6 +30,13 @@ func (w *World) effectOf(g *G, alt int32, e *effect) {
 	case opStart:
 		e.gh = mix(g.h, 0x57) // "started" differs from "not started yet"
 	case opSimple, opQuiesce:
+		if p.comm {
+			o := p.objs[0]
+			e.gh = mix(mix(g.h, p.code), o.base)
+			e.objs = p.objs
+			e.commT = mix(g.h, p.code) | 1
+			return
+		}
 		fold(p.code, p.objs, !p.read)
 	case opClose:
 		fold(0x10, p.objs, true)
@@ -111,8 +119,11 @@ func (w *World) commit(g *G, e *effect) {
 		if o == nil {
 			continue
 		}
-		if e.write {
-			o.last = e.wlast
+		if e.commT != 0 {
+			o.acc += e.commT
+			o.last = mix(o.base, o.acc)
+		} else if e.write {
+			o.last, o.base, o.acc = e.wlast, e.wlast, 0
 		}
 		w.share(g, o)
 		if e.o != nil {
